@@ -1,0 +1,42 @@
+//go:build verif
+
+// Contracts for the pvc verification-condition generator (see /verif/DESIGN.md).
+// This file contains comments only; with the build tag off it is not part of the package.
+package pongo2
+
+//@ func max
+//@   ensures r0 == ite(a > b, a, b)
+//@ func min
+//@   ensures r0 == ite(a < b, a, b)
+
+// ---- regions (DESIGN 3.3): which struct types may be written during execution ----
+//@ type ExecutionContext region perexec
+//@ type tagForLoopInformation region perexec
+//@ type tagCycleValue region perexec
+//@ type tagBlockInformation region perexec
+//@ type Error region perexec
+//@ type templateWriter region perexec
+
+//@ type ExecutionContext
+//@   invariant perexec(self.Private)
+
+//@ func (Context).Update
+//@   requires @owned perexec(c)
+
+//@ func NewChildExecutionContext
+//@   ensures fresh(r0) && r0 != nil && fresh(r0.Private) && r0.Private != nil
+//@   ensures r0.Public == parent.Public && r0.Autoescape == parent.Autoescape && r0.template == parent.template && r0.Shared == parent.Shared
+//@ func newExecutionContext
+//@   ensures fresh(r0) && r0 != nil && fresh(r0.Private) && r0.Public == ctx && r0.template == tpl
+
+// sort.Sort calls back Len/Less/Swap on the value it is given; Swap writes the slice elements.
+//@ func (sortedKeys).Swap
+//@   requires @owned perexec(sk)
+//@   requires 0 <= i && i < len(sk) && 0 <= j && j < len(sk)
+//@ func (valuesList).Swap
+//@   requires @owned perexec(vl)
+//@   requires 0 <= i && i < len(vl) && 0 <= j && j < len(vl)
+//@ func (sortedKeys).Less
+//@   requires 0 <= i && i < len(sk) && 0 <= j && j < len(sk)
+//@ func (valuesList).Less
+//@   requires 0 <= i && i < len(vl) && 0 <= j && j < len(vl)
